@@ -321,11 +321,13 @@ private:
                 std::integral_constant<bool, is_bit_aligned_t::value> // TODO: Simplify after MPL removal
             > neg;
 
-        detail::swap_half_bytes
+        // The leftmost pixel of a PBM row is the most significant bit of its byte, the first
+        // pixel of a bit aligned gil row is the least significant one (cf. the writer).
+        detail::mirror_bits
             <
                 typename rh_t::buffer_t,
                 std::integral_constant<bool, is_bit_aligned_t::value> // TODO: Simplify after MPL removal
-            > swhb;
+            > mirror( true );
 
         //Skip scanlines if necessary.
         for( y_t y = 0; y < this->_settings._top_left.y; ++y )
@@ -342,7 +344,7 @@ private:
                         );
 
             neg( rh.buffer() );
-            swhb( rh.buffer() );
+            mirror( rh.buffer() );
 
             this->_cc_policy.read( beg
                                  , end
